@@ -65,6 +65,10 @@ def monitor_unrelated(run, where, inv, meta, hist, ii, rep):
 def gen_mixed(rng, **kw):
     if rng.random() < 0.25:
         return gen_unrelated(rng, **kw)
+    if rng.random() < 0.3:
+        # `-t restat` in the middle of a history (also of one whose manifest is a step's output, with `default` statements): the
+        # present state counts as up to date; the same request right afterwards, nothing edited, has nothing to do
+        return gen_history(rng, with_restat=True, with_regen=rng.choice([False, True, True, "include"]), **kw)
     return gen(rng, **kw)
 
 
